@@ -88,6 +88,9 @@ def run(tier: str, seed: int) -> int:
     cases = chk.generate("Gen_C11")
     obs = drive("harness.props.c11", "drive_case", cases, chunk=50)
     verdicts = chk.judge("Judge_C11", obs)
+    from .. import corrupt as _corrupt
+
+    chk.binding_selftest("Judge_C11", obs, verdicts, _corrupt.c11)
     by_id = {o["id"]: _pretty(o) for o in obs}
     chk.absorb(verdicts, by_id, {c["id"]: c for c in cases})
     samples = [by_id[o["id"]] for o in obs[:: max(1, len(obs) // 4)]][:4]
